@@ -35,6 +35,20 @@ impl NatProp {
     }
 }
 
+/// The stack pointer is at the machine's stack top (0: these machines never call init_stack), in the
+/// emulator's convention (RSP + 8) or the hardware's (RSP): only there may a RET end the run (C11).
+fn top_level_rsp(c: &NCase) -> bool {
+    c.gpr[4] == 0 || c.gpr[4].wrapping_add(8) == 0
+}
+
+/// The machine could not be put into the case's state: inconclusive, never a verdict on the emulator.
+pub fn harness_fault(d: &Diff) -> Option<CaseOut> {
+    match &d.emu {
+        Emu::Err(e) if e.starts_with("HARNESS:") => Some(CaseOut::fail("HARNESS-FAULT|machine-setup".into(), e.clone())),
+        _ => None,
+    }
+}
+
 pub fn case_fp(c: &NCase) -> u64 {
     let mut h = Fnv::new();
     h.str(&c.code).u64(c.rip).u64(c.rflags).u64(c.mem_seed).u64(c.fs).u64(c.gs);
@@ -45,6 +59,7 @@ pub fn case_fp(c: &NCase) -> u64 {
     for (a, b) in &c.patches {
         h.u64(*a).str(b);
     }
+    h.str(&c.pre);
     h.finish()
 }
 
@@ -287,6 +302,15 @@ impl Property for NatProp {
                 }
             }
         }
+        // 1/8 of the cases: the emulator has already executed a few instructions on this machine
+        // (unmatched returns, nested calls, repeated jumps, other bytes at this very address); registers,
+        // flags and arenas are reset to the case's afterwards, so the CPU comparison is unchanged. What an
+        // instruction does may not depend on bookkeeping left behind by earlier ones.
+        let mut tp = Tape::new(&tape[0][109..]);
+        if tp.below(8) == 0 {
+            let n = 1 + tp.below(4);
+            c.pre = (0..n).map(|_| tp.pick(&['r', 'r', 'c', 'J', 'j', 'x', 'x'])).collect();
+        }
         c
     }
 
@@ -311,12 +335,18 @@ impl Property for NatProp {
             return self.exec_c05_fs(c);
         }
         let d = self.eng().run(c, true);
+        if let Some(hf) = harness_fault(&d) {
+            return hf;
+        }
         if !d.valid {
             return CaseOut::discard("invalid-encoding");
         }
         let code = format!("{:?}", d.ins.code());
         let in_floor = self.eng().floor.contains(&code);
         let mut out = CaseOut::pass(false, fp).class(format!("form:{}", code));
+        if !c.pre.is_empty() {
+            out = out.class("after-prelude");
+        }
         if which == Which::C01 && d.ins.code() == Code::Cpuid {
             // host-specific payload: not compared with this CPU. What the architecture fixes is the shape:
             // EAX EBX ECX EDX are written as 32-bit values and nothing else changes.
@@ -358,7 +388,7 @@ impl Property for NatProp {
         if noncanonical_transfer(&d) {
             return CaseOut::discard("non-canonical-branch-target (vendor-specific fault point)");
         }
-        if d.ins.mnemonic() == Mnemonic::Ret && matches!(d.emu, Emu::Ok(false)) {
+        if d.ins.mnemonic() == Mnemonic::Ret && matches!(d.emu, Emu::Ok(false)) && top_level_rsp(c) {
             // RSP + 8 equals the machine's stack_top (0 here: no init_stack): the emulator's
             // "top-level RET finishes the run" convention, which is C11's subject
             return CaseOut::discard("top-level-ret-finish (C11)");
@@ -767,6 +797,9 @@ impl NatProp {
         }
         let twin = NCase { code: crate::util::hex(&bytes), fs: c.gs, gs: c.fs, ..c.clone() };
         let a = self.eng().run(c, false);
+        if let Some(hf) = harness_fault(&a) {
+            return hf;
+        }
         // an operand that reads the instruction's own bytes sees the swapped prefix: not comparable
         let len = c.code_bytes().len() as u64;
         if a.accesses.iter().any(|(ad, sz, _, _)| *ad < c.rip + len && ad.wrapping_add(*sz) > c.rip) {
@@ -800,6 +833,9 @@ impl NatProp {
         }
         let fp = case_fp(c);
         let d = self.eng().run(c, true);
+        if let Some(hf) = harness_fault(&d) {
+            return hf;
+        }
         if !d.valid {
             return CaseOut::discard("invalid-encoding");
         }
@@ -814,7 +850,7 @@ impl NatProp {
         if noncanonical_transfer(&d) {
             return CaseOut::discard("non-canonical-branch-target (vendor-specific fault point)");
         }
-        if d.ins.mnemonic() == Mnemonic::Ret && matches!(d.emu, Emu::Ok(false)) {
+        if d.ins.mnemonic() == Mnemonic::Ret && matches!(d.emu, Emu::Ok(false)) && top_level_rsp(c) {
             return CaseOut::discard("top-level-ret-finish (C11)");
         }
         let mut out = CaseOut::pass(true, fp).class(format!("form:{}", code));
